@@ -1514,11 +1514,11 @@ def _run(ck: Check):
     phases['lean_obligations'] = round(time.time() - ck.t0, 1)
     timed('witnesses', part_witnesses, ck)
     timed('gates', part_gates, ck)
-    timed('objects', part_objects, ck, 300 if thorough else 24)
-    timed('passdata', part_passdata, ck, 150 if thorough else 10)
+    timed('objects', part_objects, ck, 800 if thorough else 24)
+    timed('passdata', part_passdata, ck, 400 if thorough else 10)
     timed('workflows', part_workflows, ck)
-    timed('malformed', part_malformed, ck, 4000 if thorough else 300)
-    ncirc = timed('circuits', part_circuits, ck, 2400 if thorough else 64, 18)
+    timed('malformed', part_malformed, ck, 10000 if thorough else 300)
+    ncirc = timed('circuits', part_circuits, ck, 5000 if thorough else 64, 18)
     ck.coverage['phase_seconds'] = phases
     ck.coverage['circuits_from_histories'] = ncirc
     ck.coverage['rule'] = (
